@@ -50,6 +50,8 @@ def response_forms(df, meta, rng):
              ("np.log(w)", "numeric", np.log(df["w"].to_numpy(dtype=float))),
              ("I(x + 1)", "numeric", df["x"].to_numpy(dtype=float) + 1),
              ("`col 1`", "numeric", df["col 1"].to_numpy(dtype=float))]
+    for col in ("ybig", "ybigN"):
+        forms.append((col, "numeric-exact", [int(v) for v in df[col].tolist()]))
     for col in ("s", "o", "cu", "co", "yb"):
         lv = meta[col]["levels"]
         rows = np.asarray(df[col].tolist(), dtype=object)
@@ -128,6 +130,10 @@ def judge(case, m):
     for dt in ("uint8", "int8", "int16"):
         df[f"succ_{dt}"] = df["succ"].astype(dt)
     df["tr_big"] = np.full(len(df), 301, dtype="int64")
+    # integers a float64 cannot hold (nanosecond timestamps, ids): as numpy int64 and as nullable Int64
+    bigs = [2 ** 53 + 1 + 2 * j if j % 3 else -(2 ** 60) - 7 - j for j in range(len(df))]
+    df["ybig"] = np.array(bigs, dtype="int64")
+    df["ybigN"] = pd.array(bigs, dtype="Int64")
     ns = D.namespace(meta)
     rhs_case = {**case, "resp": None}
     rhs = D.formula_text(rhs_case)
@@ -145,7 +151,7 @@ def judge(case, m):
                 m.note("design-raised:" + type(e).__name__)
                 return
             if base is not None:
-                m.ev({"numeric": "numeric-unchanged", "categoric": "categorical-indicators", "level": "level-indicator",
+                m.ev({"numeric": "numeric-unchanged", "numeric-exact": "numeric-unchanged", "categoric": "categorical-indicators", "level": "level-indicator",
                       "proportion": "proportion-columns", "none": "single-term-response"}[kind])
                 m.violation("predictors-independent", f"{formula}: raised {type(e).__name__}: {e} although 'y ~ {rhs}' builds",
                             case=c, key="raises:" + kind)
@@ -176,6 +182,15 @@ def judge(case, m):
                             case=c, key="numeric")
             elif R.kind != "numeric":
                 m.violation("numeric-unchanged", f"{formula}: kind {R.kind!r}", case=c, key="numeric-kind")
+        elif kind == "numeric-exact":
+            m.ev("numeric-unchanged")
+            try:
+                got = [int(v) for v in X.reshape(n).tolist()]
+            except Exception as e:
+                got = repr(e)
+            if got != want:
+                m.violation("numeric-unchanged", f"{formula}: integer response values beyond 2**53 are not held unchanged "
+                            f"(dtype {X.dtype}, first {str(got)[:60]} vs {str(want)[:60]})", case=c, key="numeric-exact")
         elif kind == "categoric":
             m.ev("categorical-indicators")
             lv, W = want
